@@ -37,6 +37,8 @@ func TestEngine(t *testing.T) {
 		runAuth(t, seed, n, dir)
 	case "lockup":
 		runLockup(t, seed, n, dir)
+	case "gamm":
+		runGamm(t, seed, n, dir)
 	case "cl":
 		runCL(t, seed, n, dir)
 	default:
